@@ -46,6 +46,9 @@ return `Option` and their `none` cases are characterised exactly below.
                                                               time32_roundtrip, time32_saturates,
                                                               time32_decode_encode, time32_none_iff
   (PollInterval stays within limits, as_duration clamps)      poll_inc_dec, poll_as_duration
+  (… as_duration monotone, wire byte round trip, inc/dec
+     inverse inside the limits)                               poll_as_duration_mono, poll_byte_roundtrip,
+                                                              poll_inc_dec_inverse
   PTP Timestamp / Duration obey the same laws                 pt_sub_shortest, pt_sub_add_back, pt_add_sub_cancel,
                                                               pd_saturates, pd_div_exact
                                                               pt_sub_antisymm, pt_add_add, pd_add_comm_mono
@@ -433,6 +436,28 @@ theorem poll_as_duration (p : Int) (hp : inI8 p) :
 
 example : pollAsDuration 4 = 68719476736 ∧ pollAsDuration (-128) = 1 ∧ pollAsDuration 127 = 2 ^ 62 := by decide
 
+/-- a longer poll interval is never a shorter duration (also across the clamps) -/
+theorem poll_as_duration_mono (p q : Int) (h : p ≤ q) : pollAsDuration p ≤ pollAsDuration q := by
+  unfold pollAsDuration
+  apply (pow2_bounds _ _ ?_).2
+  unfold clampInt satI8 clampInt; (repeat' split) <;> omega
+
+/-- the wire byte of a poll interval decodes to the same interval, and every byte is some interval's byte -/
+theorem poll_byte_roundtrip (p b : Int) :
+    (inI8 p → pollFromByte (pollAsByte p) = p) ∧
+      (0 ≤ b ∧ b ≤ 255 → inI8 (pollFromByte b) ∧ pollAsByte (pollFromByte b) = b) := by
+  unfold inI8 pollFromByte pollAsByte
+  refine ⟨?_, ?_⟩ <;> intro h <;> (repeat' split) <;> omega
+
+/-- inc and dec are monotone in the interval and inverse to each other strictly inside the limits -/
+theorem poll_inc_dec_inverse (p lmin lmax : Int) (hp : inI8 p) (h1 : lmin < p) (h2 : p < lmax) (hl : inI8 lmax)
+    (hm : inI8 lmin) : pollDec (pollInc p lmax) lmin = p ∧ pollInc (pollDec p lmin) lmax = p := by
+  unfold inI8 at *
+  unfold pollInc pollDec satI8 clampInt
+  refine ⟨?_, ?_⟩ <;> (repeat' split) <;> omega
+
+example : pollFromByte (pollAsByte (-3)) = -3 ∧ pollAsByte (-3) = 253 ∧ pollAsDuration 3 ≤ pollAsDuration 4 := by decide
+
 /-! ### statime-base: the same laws on 128 bits -/
 
 def Saturates128 (exact result : Int) : Prop :=
@@ -618,3 +643,6 @@ end NtpVerif.C32
 #print axioms NtpVerif.C32.pt_sub_antisymm
 #print axioms NtpVerif.C32.pt_add_add
 #print axioms NtpVerif.C32.pd_add_comm_mono
+#print axioms NtpVerif.C32.poll_as_duration_mono
+#print axioms NtpVerif.C32.poll_byte_roundtrip
+#print axioms NtpVerif.C32.poll_inc_dec_inverse
